@@ -1,0 +1,60 @@
+// Copyright 2023 Versity Software
+// This file is licensed under the Apache License, Version 2.0
+// (the "License"); you may not use this file except in compliance
+// with the License.  You may obtain a copy of the License at
+//
+//   http://www.apache.org/licenses/LICENSE-2.0
+//
+// Unless required by applicable law or agreed to in writing,
+// software distributed under the License is distributed on an
+// "AS IS" BASIS, WITHOUT WARRANTIES OR CONDITIONS OF ANY
+// KIND, either express or implied.  See the License for the
+// specific language governing permissions and limitations
+// under the License.
+
+//go:build verif
+
+package auth
+
+import (
+	"encoding/hex"
+	"os"
+	"path/filepath"
+	"time"
+)
+
+// VerifMissFetchedHook, when set, is called by IAMCache.GetUserAccount
+// between the fetch from the IAM service and the cache update. It only
+// exists in builds with the `verif` tag (yield point of the verification
+// harness in /verif, property C17).
+var VerifMissFetchedHook func(access string)
+
+// verifMissFetched is the yield point itself. Without a hook function it
+// is steered from outside the process: when the environment variable
+// VGW_VERIF_IAM_MISS_GATE names a directory that contains the file
+// hold-<hex(access)>, the caller announces itself with held-<hex(access)>
+// and waits (at most 20 s) until the hold file is removed.
+func verifMissFetched(access string) {
+	if h := VerifMissFetchedHook; h != nil {
+		h(access)
+		return
+	}
+	dir := os.Getenv("VGW_VERIF_IAM_MISS_GATE")
+	if dir == "" {
+		return
+	}
+	name := hex.EncodeToString([]byte(access))
+	hold := filepath.Join(dir, "hold-"+name)
+	if _, err := os.Stat(hold); err != nil {
+		return
+	}
+	held := filepath.Join(dir, "held-"+name)
+	os.WriteFile(held, nil, 0600)
+	for i := 0; i < 20000; i++ {
+		if _, err := os.Stat(hold); err != nil {
+			break
+		}
+		time.Sleep(time.Millisecond)
+	}
+	os.Remove(held)
+}
